@@ -1,6 +1,7 @@
 import TeaTasting.Props.C14
 import TeaTasting.Lemmas.Characterise
 import TeaTasting.Lemmas.Linear
+import TeaTasting.Lemmas.Nonneg
 
 /-! # C06 — CUPED/CUPAC equals regression adjustment with the pooled coefficient
 
@@ -98,11 +99,19 @@ theorem cuped_analyze_eq_textbook (P : Prims α) (hP : P.QuantileLaws) (cfg : Ra
     (hT : ValidGroup (rolesOf cfg) col (Tc ++ Tt)) :
     RatioOfMeans.analyze_aggregates P cfg (aggrOf Tc col) (aggrOf Tt col)
       = cupedTest P (optsOf cfg) (rolesOf cfg) col Tc Tt := by
-  rw [analyze_aggregates_eq, analyze_stats_eq_textbook P hP cfg hc0 hc1]
+  rw [analyze_aggregates_eq]
   rw [theta_eq_pooled cfg col Tc Tt hc.two ht.two hT, covMean_eq_pooled cfg col Tc Tt hc.two ht.two]
   rw [metric_mean_eq cfg col Tc _ _ hc, metric_mean_eq cfg col Tt _ _ ht,
     metric_var_eq cfg col Tc _ (covMean (rolesOf cfg) col Tc Tt) hc,
     metric_var_eq cfg col Tt _ (covMean (rolesOf cfg) col Tc Tt) ht]
+  have v1 := svar_nonneg Tc (fun r => linY (rolesOf cfg) col Tc r
+    - theta (rolesOf cfg) col Tc Tt * (linX (rolesOf cfg) col Tc r - covMean (rolesOf cfg) col Tc Tt)) hc.two
+  have v2 := svar_nonneg Tt (fun r => linY (rolesOf cfg) col Tt r
+    - theta (rolesOf cfg) col Tc Tt * (linX (rolesOf cfg) col Tt r - covMean (rolesOf cfg) col Tc Tt)) ht.two
+  have n1 : (2 : α) ≤ Aggr.count (aggrOf Tc col) := natCast_two_le hc.two
+  have n2 : (2 : α) ≤ Aggr.count (aggrOf Tt col) := natCast_two_le ht.two
+  rw [analyze_stats_eq_textbook P hP cfg hc0 hc1 _ _ _ _ _ _ (seSq_nonneg _ v1 v2 n1 n2)
+    (seSq_nonneg _ (by positivity) (by positivity) n1 n2)]
   rfl
 
 /-! ## Consequences named by the property -/
